@@ -35,6 +35,8 @@ pub mod c10;
 pub mod c08;
 #[path = "../../kani/src/c19.rs"]
 pub mod c19;
+#[path = "../../kani/src/c17.rs"]
+pub mod c17;
 
 fn kani_bodies() -> Vec<(&'static str, fn())> {
   let mut v: Vec<(&'static str, fn())> = Vec::new();
@@ -43,6 +45,7 @@ fn kani_bodies() -> Vec<(&'static str, fn())> {
   v.extend_from_slice(c10::BODIES);
   v.extend_from_slice(c08::BODIES);
   v.extend_from_slice(c19::BODIES);
+  v.extend_from_slice(c17::BODIES);
   v
 }
 
